@@ -151,10 +151,18 @@ func allChecks() []CheckSpec {
 			ID: "C10",
 			Harnesses: []HarnessSpec{
 				{Fn: "verifC10Loop", Lemma: "schedule exploration over the REAL internal/taskloop (New/runLoop/Run/Close/Err, no stub): two concurrent submitters (one with a cancellable context), an optional canceller and an optional closer, the loop goroutine: tasks never overlap, a submission returns nil exactly when its task ran once to completion before the return and an error exactly when it never ran, no task starts after Close returned, the close callback runs once and before Close returns, submissions after Close fail without running",
-					Bounds: "quick: 1 submitter (cancellable context) + optional canceller + optional closer + loop goroutine + harness; thorough: 2 submitters; every schedule with at most 2 preemptive context switches at synchronisation-point granularity (channel ops, select, mutex, Once, WaitGroup, atomics), free switches when a thread blocks", MustReach: []string{"submitted", "refused", "closed", "done"},
+					Bounds: "1 submitter (cancellable context) + optional canceller + optional closer + loop goroutine + harness; every schedule with at most 2 preemptive context switches at synchronisation-point granularity (channel ops, select, mutex, Once, WaitGroup, atomics), free switches when a thread blocks", MustReach: []string{"submitted", "refused", "closed", "done"},
 					Cfg: func(c *HarnessCfg, tier int) {
 						c.GoPolicy = "explore"
 						c.ContextBound = 2
+						c.MaxPaths = 4000000
+						c.MaxWallS = 1200
+					}},
+				{Fn: "verifC10LoopTwoSubmitters", ThoroughOnly: true, Lemma: "schedule exploration over the REAL internal/taskloop (New/runLoop/Run/Close/Err, no stub): two concurrent submitters (one with a cancellable context), an optional canceller and an optional closer, the loop goroutine: tasks never overlap, a submission returns nil exactly when its task ran once to completion before the return and an error exactly when it never ran, no task starts after Close returned, the close callback runs once and before Close returns, submissions after Close fail without running",
+					Bounds: "2 submitters (one with a cancellable context) + optional canceller + optional closer + loop goroutine + harness; every schedule with at most 1 preemptive context switch at synchronisation-point granularity (channel ops, select, mutex, Once, WaitGroup, atomics), free switches when a thread blocks", MustReach: []string{"submitted", "refused", "closed", "done"},
+					Cfg: func(c *HarnessCfg, tier int) {
+						c.GoPolicy = "explore"
+						c.ContextBound = 1 // two submitters with two preemptions exhausted a 4M-schedule budget: not claimed
 						c.MaxPaths = 4000000
 						c.MaxWallS = 1200
 					}},
@@ -227,7 +235,7 @@ func allChecks() []CheckSpec {
 			ID: "C12",
 			Harnesses: []HarnessSpec{
 				{Fn: "verifC12Sequence", Lemma: "sequential operation sequences on the real UDPMuxDefault (GetConn, write through a handle, inbound datagram through the real connWorker, RemoveConnByUfrag, handle Close, mux Close) against a reference routing table (owner by canonical address = last writer, connections by ufrag): every inbound datagram grows exactly the reference's destination queue by one byte-identical packet with the true source, no other queue changes; first-contact STUN is routed by the USERNAME prefix only to that ufrag's connection of the source's family; per-connection FIFO; address map and per-connection lists agree with canonical keys; removed/closed connections receive nothing and own no binding",
-					Bounds: "3 (quick) / 5 (thorough) operations over 2 ufrags, 4 addresses (two IPv4, the IPv4-mapped form of the first, one IPv6), datagram = 3 arbitrary bytes or STUN with USERNAME of a known or arbitrary 2-byte ufrag, IPv4 mux socket", MustReach: []string{"written", "delivered", "dropped", "removed", "last-handle-closed", "mux-closed", "done"},
+					Bounds: "3 (quick) / 4 (thorough) operations after an initial GetConn over 2 ufrags and 3 addresses (two IPv4 and the IPv4-mapped form of the first; 4 operations with an additional IPv6 address exhausted the path budget and are not claimed), datagram = 3 arbitrary bytes or STUN with USERNAME of a known or arbitrary 2-byte ufrag, IPv4 mux socket", MustReach: []string{"written", "delivered", "dropped", "removed", "last-handle-closed", "mux-closed", "done"},
 					Cfg: func(c *HarnessCfg, tier int) { c.GoPolicy = "queue" }},
 				{Fn: "verifC12LastWriter", Lemma: "last writer wins for every write history: two connections write to two remote addresses in any order; after every write the address table points at the writer; afterwards a datagram from each address is delivered to the connection that wrote to it last and to no other (dropped if nobody wrote); removing the last writer's ufrag unbinds the address and nothing falls back to the earlier writer",
 					Bounds: "2 ufrags, 2 remote addresses, every sequence of 3 (thorough 4) writes by any handle to any address, symbolic inbound payloads", MustReach: []string{"never-written", "taken-over-or-kept", "done"},
